@@ -177,6 +177,10 @@ func (e *escaper) escapeAction(c context, n *parse.ActionNode) context {
 	if c.state == stateAttr && c.attr.value == "" {
 		c.attr.dynamicStart = true
 	}
+	if c.state == stateAttr && c.element.name == "link" && c.attr.name == "rel" {
+		// The rel values of this link element are no longer known statically.
+		c.attr.ambiguousValue = true
+	}
 	return c
 }
 
@@ -742,8 +746,17 @@ func contextAfterText(c context, s []byte) (context, int) {
 		ret.scriptType = strings.ToLower(string(s[:i]))
 	}
 	// Save the link element's rel attribute value if we are parsing it for the first time.
-	if c.state == stateAttr && c.element.name == "link" && c.attr.name == "rel" {
-		ret.linkRel = " " + strings.Join(strings.Fields(strings.TrimSpace(strings.ToLower(string(s[:i])))), " ") + " "
+	// Only the first rel attribute counts: browsers ignore later duplicates.
+	if c.state == stateAttr && c.element.name == "link" && c.attr.name == "rel" && c.linkRel == "" {
+		if c.attr.ambiguousValue {
+			// The value contains an action or depends on a conditional, so the rel values are
+			// unknown. A linkRel without any value keeps the href attribute at its default.
+			ret.linkRel = " "
+		} else {
+			// c.attr.value holds the static text seen before this last piece of the value.
+			rel := c.attr.value + string(s[:i])
+			ret.linkRel = " " + strings.Join(strings.Fields(strings.TrimSpace(strings.ToLower(rel))), " ") + " "
+		}
 	}
 	if c.delim != delimSpaceOrTagEnd {
 		// Consume any quote.
